@@ -192,7 +192,12 @@ def run_case(case):
             lv = [int(np.argmin(np.abs(z - zz))) for zz in zlev]
             if np.max(np.abs(z[lv] - zlev)) > 1e-9 * ztop:
                 return {"evals": 0, "nontrivial": False, "skipped": "refined grid does not contain the coarse output heights"}
-        _, c, f = S(q0, z, prof, dom, lv, modes=(nx, ny), halo=0.0, precision="double")
+        # the three heights are requested in rotated order (top, bottom, interior): a slice returned under the wrong label is an
+        # O(1) error that no refinement removes
+        rot = [2, 0, 1] if len(lv) == 3 else list(range(len(lv)))
+        _, c, f = S(q0, z, prof, dom, [lv[i] for i in rot], modes=(nx, ny), halo=0.0, precision="double")
+        back = np.argsort(rot)
+        c, f = np.asarray(c)[back], np.asarray(f)[back]
         Hp = np.fft.fft2(c, norm="forward") * (nx * ny)
         Hq = np.fft.fft2(f, norm="forward") * (nx * ny)
         Hp, Hq = Hp[:, ok][:, good], Hq[:, ok][:, good]
